@@ -1440,6 +1440,7 @@ SPECS["C05"]["theorems"] += [
     "Woodpile.Props.C05S.chunker_new_rel",
     "Woodpile.Props.C05S.chunker_world_agrees",
     "Woodpile.Props.C05S.data_chunk_live",
+    "Woodpile.Props.C05S.reader_world_agrees_partial",
 ]
 SPECS["C05"]["level_text"] += (' Props/C05S (track rdrworld): StreamChunker chunks and StreamReader records. Model/StreamWorld.lean models pump / '
     'next_record_bytes on the structural World (the arena is a detached ByteArena or the decoder iovec\'s own; StreamChunker::buf and every Chunk::Data '
